@@ -75,7 +75,7 @@ def compare(base, other, rank=0):
     return None
 
 
-def script(r, tiny=False):
+def script(r, tiny=False, ncomp=None, split=None):
     m = pipeline.gen_model(r, max_modes=(r.choice([1, 2, 2]) if tiny else r.choice([2, 3, 4])))
     M = m.modes()
     s = pipeline.core_script(m, order=0, symm=r.choice(["default", "default", "ignore"]))
@@ -85,14 +85,13 @@ def script(r, tiny=False):
     for _ in range(2):
         q = [r.below(M) for _ in range(4)]
         s.append("chi %d %d %d %d %d 2 0 0 0 1 -1 1" % (q[0], q[1], q[2], q[3], r.below(2)))
-    ncomp = r.range(1, 4)
-    qs = []
-    for _ in range(ncomp):
-        q = [r.below(M) for _ in range(4)]
-        q[2:] = [q[1], q[0]]
-        qs.append(q)
+    ncomp = ncomp or r.range(1, 4)
+    # distinct stored components (no two of them aliases of each other): (i, j, j, i) with i <= j
+    cand = [(i, j) for i in range(M) for j in range(i, M)]
+    r.shuffle(cand)
+    qs = [[i, j, j, i] for (i, j) in cand[:ncomp]]
     s += ["tpc new", "tpc prepareall %d %s" % (len(qs), " ".join("%d %d %d %d" % tuple(q) for q in qs)),
-          "tpc computeall %d" % r.below(2), "tpc list", "tpc evalall 0 0 0"]
+          "tpc computeall %d" % (r.below(2) if split is None else split), "tpc list", "tpc evalall 0 0 0"]
     for q in qs:
         s.append("tpc get %d %d %d %d 0 1 0" % tuple(q))
     return s
@@ -107,7 +106,9 @@ def correspondence(ctx):
     for k in range(nscripts):
         # every fifth script is a tiny model run on more ranks than it has parts / blocks (idle ranks in every step)
         tiny = k % 5 == 1
-        s = script(r, tiny)
+        # the first scripts fix the shapes that matter for the colour split: more components than ranks, fewer, equal
+        forced = {0: (3, 1), 2: (2, 1), 3: (3, 0)}.get(k % 5)
+        s = script(r, tiny, *(forced or (None, None)))
         base = pipeline.run_case(exe, s, "real", numeric=False, timeout=300)
         ctx.evaluations += 1
         if base.aborted():
@@ -116,7 +117,7 @@ def correspondence(ctx):
             continue
         for (np, th) in (configs if not tiny else [(6, 1), (9, 2) if thorough else (5, 2)]):
             seed = r.below(1 << 30)
-            res = pipeline.run_case(exe, s, "real", numeric=False, timeout=240, np=np, threads=th)
+            res = pipeline.run_case(exe, s, "real", numeric=False, timeout=(240 if thorough else 90), np=np, threads=th)
             ctx.evaluations += 1
             ctx.count("np_%d" % np)
             ctx.count("threads_%d" % th)
@@ -142,6 +143,8 @@ def correspondence(ctx):
                     break
         if len(ctx.samples) < 3:
             ctx.samples.append(dict(script=s[-10:], configs=configs))
+        if sum(1 for p in ctx.problems if p["kind"] in ("propfail", "hang", "sanitizer")) >= 3:
+            break       # enough concrete failures (each hang costs a full timeout)
 
 
 def replay(ctx, rp):
